@@ -45,6 +45,7 @@ type Req struct {
 	Delivered   bool
 	DlvStep     int
 	DlvCut      int
+	DlvSeq      uint64
 	EventSubbed bool // event.<name> was subscribed when the request was sent
 	SubGen      int  // generation of that subscription
 	Governed    string
@@ -204,6 +205,11 @@ func (t *Transport) unsubscribe(u *tSub) {
 	u.active = false
 	if t.subs[u.ns] == u {
 		delete(t.subs, u.ns)
+	}
+	if strings.HasPrefix(u.ns, "conn.") {
+		if i, ok := s.cidIdx[u.ns[5:]]; ok {
+			s.connGone[i] = s.Step
+		}
 	}
 	// undelivered events of this subscription are dropped: a subscription that
 	// has returned from Unsubscribe receives nothing
@@ -377,7 +383,23 @@ func (t *Transport) deliverable() []string {
 	}
 	sort.Strings(out)
 	var bag []string
+	// token events of one connection keep their mutual order (one sender)
+	firstTok := map[string]int{}
 	for _, m := range t.bag {
+		if strings.HasPrefix(m.Label, "token.") {
+			k := m.Label[:strings.IndexByte(m.Label, '#')]
+			if n, ok := firstTok[k]; !ok || m.N < n {
+				firstTok[k] = m.N
+			}
+		}
+	}
+	for _, m := range t.bag {
+		if strings.HasPrefix(m.Label, "token.") {
+			k := m.Label[:strings.IndexByte(m.Label, '#')]
+			if firstTok[k] != m.N {
+				continue
+			}
+		}
 		bag = append(bag, "bag:"+m.Label)
 	}
 	sort.Strings(bag)
@@ -457,7 +479,7 @@ func (t *Transport) deliver(id string) bool {
 	s.seq++
 	if m.Kind == "reply" {
 		m.Req.Delivered = true
-		m.Req.DlvStep, m.Req.DlvCut = s.Step, s.Cut
+		m.Req.DlvStep, m.Req.DlvCut, m.Req.DlvSeq = s.Step, s.Cut, s.seq
 		t.Log = append(t.Log, SeamEvent{Kind: "dlv", Req: m.Req, Step: s.Step, Cut: s.Cut, Seq: s.seq, Time: s.nowNS()})
 	}
 	s.mu.Unlock()
